@@ -326,7 +326,15 @@ class Dumper {
           for (auto* D : DS->decls()) {
             if (auto* V = dyn_cast<VarDecl>(D))
               dumpVarDecl(V);
-            else
+            else if (auto* SA = dyn_cast<StaticAssertDecl>(D)) {
+              J.object([&] {
+                J.attribute("k", "StaticAssert");
+                J.attribute("l", (int64_t)lineOf(userLoc(SA->getLocation())));
+                J.attributeBegin("cond");
+                dumpStmt(SA->getAssertExpr());
+                J.attributeEnd();
+              });
+            } else
               J.object([&] {
                 J.attribute("k", D->getDeclKindName());
                 if (auto* ND = dyn_cast<NamedDecl>(D)) J.attribute("n", declName(ND));
